@@ -54,15 +54,6 @@ theorem phraseCandidates_ok (hE : EnvOK env G) {sh : Shared D L} (h : ShInv env 
 
 /-! ## symbol tables -/
 
-theorem symMenu_ok {y : SymSel} (hy : SymWF y) : ∃ l, y.menu = .ok l := by
-  unfold SymSel.menu
-  split
-  · next c hc =>
-    have hlt := hy.cur c hc
-    rw [List.getElem?_eq_getElem hlt]
-    exact ⟨_, rfl⟩
-  · exact ⟨_, rfl⟩
-
 theorem symSelect_ok {y : SymSel} (hy : SymWF y) (n : Nat) :
     OkAnd (fun r => SymWF r.2 ∧ ∀ sym, r.1 = some sym → sym.isSyl = false) (y.select n) := by
   unfold SymSel.select
@@ -212,8 +203,15 @@ theorem select_ok (hE : EnvOK env G) {sh : Shared D L} (h : ShInv env G w sh) {s
     rw [hqy]
     cases osym with
     | none =>
-      exact .ok ⟨h, fun _ _ => ⟨hy', fun ha => (hs.repl ha).imp (fun ⟨p, hp⟩ => by rw [hy] at hp; cases hp) id⟩,
-        fun st hst => (by cases hst)⟩
+      -- a category: its sub-table opens; one without symbols closes the list (FX1 repair)
+      dsimp only
+      obtain ⟨l', hl'⟩ := symMenu_ok hy'
+      rw [hl']
+      cases l' with
+      | nil => exact .ok ⟨cancel_inv h, fun b hb => (by cases hb), fun st hst => (by cases hst; trivial)⟩
+      | cons a l' =>
+        exact .ok ⟨h, fun _ _ => ⟨hy', fun ha => (hs.repl ha).imp (fun ⟨p, hp⟩ => by rw [hy] at hp; cases hp) id⟩,
+          fun st hst => (by cases hst)⟩
     | some sym =>
       dsimp only
       cases sym with
